@@ -67,6 +67,7 @@ THEOREMS = [
     'C13_merged_surfaces_equal_senses',
     'C13_options_same_written_linked',
     'C13_options_same_written_dedup_linked',
+    'C13_options_same_written_provenance_linked',
 ]
 TRUSTED = [
     'hand-written model coq/C13/Model.v (modelled, tied by execution only)',
